@@ -1323,7 +1323,7 @@ func main() {
 	logging.Root().SetHandler(logging.DiscardHandler())
 	core.VerifSetEvictionInterval(1000 * time.Hour)
 	initKeys()
-	if mode != "stress" && mode != "locks" {
+	if mode != "stress" && mode != "locks" && mode != "readers" {
 		detectGapFix()
 	}
 	switch mode {
@@ -1333,10 +1333,12 @@ func main() {
 		replay(*file)
 	case "locks":
 		locksCmd(*out)
+	case "readers":
+		readers(*seed, *n, *out)
 	case "stress":
 		stress(*seed, *n, *out, *file == "with-TransactionsNumber")
 	default:
-		fmt.Println("usage: c20 gen|replay|locks|stress")
+		fmt.Println("usage: c20 gen|replay|locks|stress|readers")
 		os.Exit(2)
 	}
 }
